@@ -268,7 +268,7 @@ CircuitExec::StageRun CircuitExec::runStage(Circuit &c, int opIndex, const Op &o
   bool polarisedChangedOrient = false;
   bool observeOnly = true;
   for (auto &a : op.actions)
-    if (a.kind != CB_THROW_RT && a.kind != CB_THROW_BA && a.kind != CB_THROW_INT) observeOnly = false;
+    if (a.kind != CB_THROW_RT && a.kind != CB_THROW_BA && a.kind != CB_THROW_INT && a.kind != CB_NEST) observeOnly = false;
 
   auto agent = [&](PlacementStep step) {
     allocLibraryMode(false);
@@ -1182,6 +1182,11 @@ void CircuitExec::run() {
         if (op.enumThrow) enumerateThrows(*c, i, op);
         StageRun r = runStage(*c, i, op, -1, 0, false, "op" + std::to_string(i));
         protocolAfter(*c, i, r.out.returned() ? "return" : "exception");
+        if (!r.out.returned() && !r.agentMutated && (i % 2 == 0)) {
+          // ... followed by a further placement call (on a copy, so that the history continues unchanged)
+          Circuit cc = *c;
+          furtherCallAgrees(cc, i, i);
+        }
         break;
       }
       case OP_PERTURB:
